@@ -16,6 +16,7 @@
 """Model Modifier class that produce the final quantized TFlite model."""
 
 import copy
+import os
 
 import numpy as np
 
@@ -72,6 +73,15 @@ class ModelModifier:
     )
     self._update_signature_defs(quantized_model, signature_io_positions)
     constant_buffer_size = self._process_constant_map(quantized_model)
+    # Verification hook (inactive unless AI_EDGE_QUANTIZER_VERIF=1): lets a
+    # test harness drive small models through the large-model serialization.
+    if (
+        os.environ.get('AI_EDGE_QUANTIZER_VERIF') == '1'
+        and 'AI_EDGE_QUANTIZER_VERIF_LARGE_MODEL_THRESHOLD' in os.environ
+        and constant_buffer_size
+        > int(os.environ['AI_EDGE_QUANTIZER_VERIF_LARGE_MODEL_THRESHOLD'])
+    ):
+      return self._serialize_large_model(quantized_model)
     if constant_buffer_size > 2**31 - 2**20:
       return self._serialize_large_model(quantized_model)
     else:
